@@ -121,7 +121,7 @@ def run(ctx: Ctx) -> None:
     ids = ["18:000730", "01:145038", "04:000002", "--:------", "63:262142", "13:000003"]
     for _ in range(1500 if thorough else 400):
         verb = rng.choice(["I", "W", " I", " W", "RQ", "RP"])
-        seqn = rng.choice(["---", "001", "255", "123"])
+        seqn = rng.choice(["---", "000", "255", f"{rng.randint(0, 255):03d}", f"{rng.randint(0, 255):03d}"])
         x0, x1, x2 = rng.choice(ids), rng.choice(ids), rng.choice(ids)
         if rng.random() < 0.75:  # mostly one of the three legal shapes
             a, b = rng.sample([i for i in ids if i[:2] not in ("--", "63")], 2)
@@ -147,6 +147,33 @@ def run(ctx: Ctx) -> None:
     files["x2"] = (PRELUDE + "Eval vm_compute in (map (fun x : str*str*str*str*str*str*str => match x with (v,q,a,b,c,d,p) => "
                    "showf (cmd_from_attrs v q a b c d p) end) " + common.coq_list(at_cases, ";\n ") + ").")
 
+    # ---------------------------------------------------------- O2b/O3b: EVERY sequence number (---, 000-255), every spelling
+    SHAPES = [("01:123456", "--:------", "01:123456"), ("01:123456", "13:654321", "--:------"),
+              ("--:------", "--:------", "01:123456"), ("01:123456", "--:------", "13:654321")]
+    for n in [None, *range(256)]:
+        txt = "---" if n is None else f"{n:03d}"
+        x0, x1, x2 = SHAPES[(n or 0) % 4]
+        verb = ("RQ", " I", " W", "RP")[(n or 0) % 4]
+        for given in ([None, "", "---"] if n is None else [txt, n]):     # _from_attrs takes the text or an int
+            try:
+                c = Command._from_attrs(verb, "22F1", "000204", addr0=x0, addr1=x1, addr2=x2, seqn=given)
+                got = (str(c), c.seqn)
+            except Exception as err:  # noqa: BLE001
+                got = (type(err).__name__, None)
+            ctx.case(("attrs-seqn", repr(given)), True, "from_attrs:every-seqn")
+            if got != (f"{verb} {txt} {x0} {x1} {x2} 22F1 003 000204", txt):
+                ctx.violation("from-attrs-alters", "_from_attrs built a frame that differs from its attributes", {"seqn": repr(given), "expected_seqn": txt, "got": got[0]})
+        for form, parts in enumerate((["01:123456"], ["01:123456", "13:654321"], ["01:123456", "--:------", "13:654321"], ["01:123456", "13:654321", "--:------"])):
+            cli = " ".join([verb.strip(), *([] if n is None else [txt]), *parts, "22F1", "000204"])
+            try:
+                c = Command.from_cli(cli)
+                got = (c.verb, c.seqn, c.code, c.payload, str(Command(str(c))) == str(c))
+            except Exception as err:  # noqa: BLE001
+                got = (type(err).__name__,)
+            ctx.case(("cli-seqn", cli), True, "cli:every-seqn")
+            if got != (verb, txt, "22F1", "000204", True):
+                ctx.violation("cli-form-alters", "from_cli does not preserve verb/seqn/code/payload", {"cli": cli, "got": list(got)})
+
     # ---------------------------------------------------------- O3: CLI short form
     for _ in range(600 if thorough else 200):
         verb = rng.choice(["RQ", "RP", " I", " W", "I", "W"])
@@ -154,7 +181,7 @@ def run(ctx: Ctx) -> None:
         code = "".join(rng.choice(HEX) for _ in range(4))
         payload = "".join(rng.choice(HEX) for _ in range(rng.randrange(2, 50, 2)))
         form = rng.randrange(5)
-        seq = rng.choice(["", "123"])
+        seq = rng.choice(["", "000", f"{rng.randint(0, 255):03d}"])
         parts = {0: [a], 1: [a, b], 2: [a, a], 3: [a, "--:------", b], 4: [a, b, "--:------"]}[form]
         cli = " ".join([verb.strip(), seq, *parts, code, payload]).replace("  ", " ")
         try:
